@@ -28,6 +28,7 @@ pub fn exec_case(slice: &str, lines: &[String]) -> Vec<String> {
         "route" => route::exec_route(lines),
         "staking" => staking::exec_staking(lines),
         "wasm-legacy" => wasm::exec_wasm_legacy(lines),
+        "wasm-bech" | "wasm-bech-codes" => wasm::exec_wasm_bech(lines),
         s if s.starts_with("wasm") => wasm::exec_wasm(lines),
         _ => panic!("unknown slice {}", slice),
     });
@@ -59,6 +60,8 @@ pub fn gen_case(slice: &str, rng: &mut Rng, thorough: bool, index: u64) -> Vec<S
         "wasm-iso" => wasm_gen2::gen_iso(rng, thorough),
         "wasm-det" => wasm_gen2::gen_det(rng, thorough),
         "wasm-legacy" => wasm_gen2::gen_legacy(rng, thorough),
+        "wasm-bech" => wasm::rebind_bech(wasm_gen::gen_wasm(rng, thorough)),
+        "wasm-bech-codes" => wasm::rebind_bech(wasm_gen2::gen_codes(rng, thorough)),
         _ => panic!("unknown slice {}", slice),
     }
 }
